@@ -526,6 +526,12 @@ func c05AggregationLoop(c *Ctx, r *Report, units []*bodyUnit) {
 			if se, ok := ce.Fun.(*ast.SelectorExpr); ok && identObj(info, se.X) == aggParam {
 				isSample = true
 			}
+			// handing the aggregator to a helper is sampling as far as the lock is concerned
+			for _, a := range ce.Args {
+				if identObj(info, a) == aggParam {
+					isSample = true
+				}
+			}
 			isRender := identObj(info, ce.Fun) == renderParam
 			if !isSample && !isRender {
 				return true
